@@ -349,7 +349,16 @@ func (s *Server) ListenContext(x context.Context, name, addr string, p cfg.Profi
 		listener:   v,
 		connection: connection{s: s, m: s, p: p, w: w, t: t, log: s.log},
 	}
-	if s.init.Do(func() { go s.listen() }); cout.Enabled {
+	s.init.Do(func() {
+		// KeyCrypt: Generate the server KeyPair before the first Listener can
+		//           accept, a hello handled before it exists would be answered
+		//           with a shared secret made from an empty PrivateKey.
+		if s.Keys.Empty() {
+			s.Keys.Fill()
+		}
+		go s.listen()
+	})
+	if cout.Enabled {
 		s.log.Info(`[%s] Added Listener on "%s"!`, n, h)
 	}
 	l.ctx, l.cancel = context.WithCancel(x)
